@@ -266,7 +266,59 @@ def _warm(fmt, tokens):
     DefaultArgsParser().parse(ArgvArgs(["prog"] + list(tokens)), fmt, True)
 
 
+def grouped(flags: int, order: bool, last: int, how: int, n: int, s: str, pos: int, lenient: bool) -> bool:
+    """
+    pre: 0 <= flags <= 3 and 0 <= last <= 2 and 0 <= how <= 2 and -9 <= n <= 12 and 0 <= pos <= 2
+    pre: len(s) == 1 and s in "ab1"
+    pre: flags > 0 or last > 0
+    pre: last == PART["last"]
+    post: _
+    """
+    # grouped short options: any subset / order of the flags -v -q, optionally ended by a value option (-n INTEGER required, -t optional text)
+    # whose value is attached ('-vqn5'), in the next token ('-vqn 5') or - for the optional one - absent ('-vqt')
+    skel = pfmt.SKELS_ALL["S13"]
+    flags, last, how, pos = _conc_small(flags, 4), _conc_small(last, 3), _conc_small(how, 3), _conc_small(pos, 3)
+    letters = ("v" if flags & 1 else "") + ("q" if flags & 2 else "")
+    if order:
+        letters = letters[::-1]
+    exp = {}
+    if flags & 1:
+        exp["verbose"] = True
+    if flags & 2:
+        exp["quiet"] = True
+    group, extra = "-" + letters, []
+    if last == 1:                              # -n: a value is required
+        if how == 2:
+            return True
+        text = str(n)
+        if how == 1 and text[0] == "-":
+            return True                        # a separate token starting with '-' is not a value (documented)
+        group += "n" + (text if how == 0 else "")
+        extra = [text] if how == 1 else []
+        exp["num"] = n
+    elif last == 2:                            # -t: the value is optional
+        group += "t" + (s if how == 0 else "")
+        extra = [s] if how == 1 else []
+        exp["tag"] = s if how != 2 else "dflt"
+    if group == "-":
+        return True
+    # the group goes before the positional, after it, or the value-less form goes last
+    if how == 2 and last == 2:
+        tokens = ["w", group] if pos != 0 else [group]
+        exp_args = {"a": "w"} if pos != 0 else {}
+    elif pos == 0:
+        tokens, exp_args = [group] + extra, {}
+    elif pos == 1:
+        tokens, exp_args = [group] + extra + ["w"], {"a": "w"}
+    else:
+        tokens, exp_args = ["w", group] + extra, {"a": "w"}
+    res = DefaultArgsParser().parse(ArgvArgs(["prog"] + tokens), skel.fmt, lenient)
+    return res.options(False) == exp and res.arguments(False) == exp_args and res.option("n") == exp.get("num") and res.option("t") == exp.get("tag", "dflt")
+
+
 def pfmt_parse(o, text):
+    if not isinstance(text, str):
+        return text                    # a default of the declared native type is reported as it is
     return {"int": int, "float": float, "str": str, "bool": lambda t: t in ("true", "1", "yes", "on")}[o.typ](text)
 
 
@@ -287,7 +339,7 @@ def conditions(tier):
     quick = tier == "quick"
     t = 100 if quick else 600
     conds = []
-    for sk in sorted(pfmt.SKELS_ALL, key=lambda k: int(k[1:])):
+    for sk in sorted(list(pfmt.SKELS) + list(pfmt.SKELS_CHAIN), key=lambda k: int(k[1:])):
         for sp in (range(4) if sk in pfmt.SKELS else (0, 3)):       # (the tree skeletons only have a flag option: two spelling styles suffice)
             for fam in ("structure", "values"):
                 conds.append({"name": "line[%s,sp%d,%s]" % (sk, sp, fam), "fn": line_structure if fam == "structure" else line_values, "timeout": t,
@@ -296,5 +348,9 @@ def conditions(tier):
                                   "STRUCTURE family: symbolic = which options are given, their place(s) among the positionals, number of positionals, command-name spelling (name/alias/mixed/omitted), '--' and where, value-less optional option, leniency; values pinned"
                                   if fam == "structure" else
                                   "VALUES family: symbolic = option value (1-2 chars over {a,1,=,-,space}), int values in [-99,99], boolean/float/null texts, positional values, the option-like token after '--', leniency; structure pinned (all options given at place 1, all positionals, '--' before the last)")})
+    for last in range(3):
+      conds.append({"name": "grouped[S13,%s]" % ["flags only", "ending in -n", "ending in -t"][last], "fn": grouped, "timeout": t, "part": {"skel": "S13", "last": last},
+                  "bounds": "grouped short options on format S13 (-v, -q flags; -n INTEGER required value; -t optional text value): every subset and order of the flags, optionally ended by a value option with its value attached / in the next token / absent; "
+                            "int values in [-9,12], text values from {a,b,1}; before / after a positional; strict and lenient"})
     conds.append({"name": "line_twin", "fn": line_twin, "timeout": t, "expect": "refute", "part": {"skel": "S1", "sp": 3}, "bounds": "reachability twin"})
     return conds
